@@ -434,6 +434,7 @@ type TreeOpts struct {
 	Str          func(*R) string
 	Key          func(*R) string
 	Stress       bool // now and then a shape of stressTree instead of a random tree
+	LightBig     bool // bigTrees: fewer and smaller shapes
 }
 
 func (r *R) scalar(o *TreeOpts) *V {
@@ -568,6 +569,53 @@ func (r *R) stressTree(o *TreeOpts, wantObj bool) *V {
 		return vlist(v)
 	}
 	return v
+}
+
+// bigTrees: a fixed handful of large shapes that every run of a tree-based property starts with (lists of 1025/1030/1500 elements
+// with containers in the tail, objects of 257/1025 members, a chain 129 deep, a 4101-element list of small scalars)
+func (r *R) bigTrees(o *TreeOpts) []*V {
+	var res []*V
+	sizes := []int{1025, 1030, 1500, 4101}
+	if o.LightBig { // the JSON engine's model costs milliseconds per element: two sizes are enough there
+		sizes = []int{1025, 1500}
+	}
+	for _, n := range sizes {
+		l := &V{K: KList}
+		for i := 0; i < n; i++ {
+			switch {
+			case i >= n-3 && i%2 == 0:
+				l.L = append(l.L, vlist(vint(i), vstr("t")))
+			case i == n-2:
+				l.L = append(l.L, vobj(KV{"k", vint(i)}))
+			case n > 4000:
+				l.L = append(l.L, vint(i%97))
+			default:
+				l.L = append(l.L, r.scalar(o))
+			}
+		}
+		res = append(res, l)
+	}
+	for _, n := range []int{257, 1025} {
+		ob := &V{K: KObj}
+		for i := 0; i < n; i++ {
+			if i >= n-2 {
+				ob.O = append(ob.O, KV{fmt.Sprintf("k%04d", i), vlist(vint(i))})
+			} else {
+				ob.O = append(ob.O, KV{fmt.Sprintf("k%04d", i), r.scalar(o)})
+			}
+		}
+		res = append(res, ob)
+	}
+	v := r.scalar(o)
+	for i := 0; i < 129; i++ {
+		if i%2 == 0 {
+			v = vlist(v)
+		} else {
+			v = vobj(KV{"a", v})
+		}
+	}
+	res = append(res, v, vobj(KV{"root", v}))
+	return res
 }
 
 // stressShare: how often a generated container is one of the stress shapes
